@@ -1399,8 +1399,8 @@ let accept_core b sx e =
                                    fin b s
                                      ((&&)
                                        ((&&) (at_c CTail OPop) (inc a (S O)))
-                                       (zn m0.tidx v)) (load_acts b s)
-                                     reads_done (fun _ -> Some x)
+                                       (zn m0.tidx v)) (CStep :: [])
+                                     (fun _ -> true) (fun _ -> Some x)
                                  | _ -> None)
                               | XO p5 ->
                                 (match p5 with
@@ -1446,7 +1446,26 @@ let accept_core b sx e =
                                           (zn m0.tidx v)) (load_acts b s)
                                         reads_done (fun _ -> Some x)
                                     | _ -> None)
-                                 | _ -> None)
+                                 | XO p6 ->
+                                   (match p6 with
+                                    | XH ->
+                                      fin b s
+                                        ((&&)
+                                          ((&&) (cpc_eqb c0.cp CRead)
+                                            ((||)
+                                              ((&&) (op_eqb c0.cop OPop)
+                                                (inc a (S O)))
+                                              ((&&) (op_eqb c0.cop OBulk)
+                                                (inc a (S (S O))))))
+                                          (zn (Nat.modulo c0.ck b) v))
+                                        (CStep :: []) (fun _ -> true)
+                                        (fun _ ->
+                                        option_map (set_sob x)
+                                          (bind x.sob o
+                                            (add (mul m0.hblk b)
+                                              (Nat.modulo c0.ck b))))
+                                    | _ -> None)
+                                 | XH -> None)
                               | XH ->
                                 fin b s
                                   ((&&) (cpc_eqb c0.cp CIdle)
@@ -1523,8 +1542,8 @@ let accept_core b sx e =
                                         ((&&)
                                           ((&&) (at_c CTail OBulk)
                                             (inc a (S (S O)))) (zn m0.tidx v))
-                                        (load_acts b s) reads_done (fun _ ->
-                                        Some x)
+                                        (CStep :: []) (fun _ -> true)
+                                        (fun _ -> Some x)
                                     | _ -> None)
                                  | XH ->
                                    ptr_ev b s x
